@@ -1,5 +1,6 @@
 import TnVerif.Lemmas.Assign
 import TnVerif.Props.C02
+import TnVerif.Props.C01
 /-!
 # C11 — assignment into a compressed tensor equals assignment into the dense array
 
@@ -267,10 +268,228 @@ theorem history (h : List (List Sel × R)) : ∀ (t : Tensor R), t.WF → noFac 
     intro i hil
     exact assign_scalar t sels c hw hn hs i hil
 
--- NOT YET PROVED (full statement):
--- theorem setitem_dense (t : Tensor R) (ht : t.WF) (key) (value) (r) (h : t.setitem key value = .ok r) :
---   ∀ idx, inShape idx t.shape → r.dense idx = if allMem sels idx then valueAt value (dropInts sels (posIdx sels idx)) else t.dense idx
--- i.e. the composition of `assign_scalar` / `assign_tensor` above with the key normalisation (C03 normKey),
--- the dense-array conversion (C01.roundtrip) and the singleton modes inserted at integer positions (C03.getitem_tensor).
+/-! ### the whole routine: `t[key] = c` through key processing, factor absorption and the empty-selection shortcut -/
+
+theorem WF_decompAll (t : Tensor R) (ht : t.WF) : t.decompAll.WF := by
+  cases t with
+  | nil => exact ht
+  | cons m ms =>
+    have : ∀ (u : Tensor R) p, Tensor.WFfrom p u → Tensor.WFfrom p u.decompAll := by
+      intro u; induction u with
+      | nil => intro p h; exact h
+      | cons x xs ih =>
+        intro p h
+        exact ⟨by simpa using h.1, trivial, by simpa [Tensor.decompAll] using ih _ h.2.2⟩
+    have h := this (m :: ms) _ ht
+    simpa [Tensor.WF, Tensor.decompAll] using h
+
+/-- an empty selection along some mode selects nothing -/
+theorem allMem_of_zero_count : ∀ (sels : List Sel) (idx : List Nat), (∃ s ∈ sels, s.count = 0) → sels.length = idx.length →
+    allMem sels idx = false := by
+  intro sels
+  induction sels with
+  | nil => intro idx ⟨s, hs, _⟩ _; simp at hs
+  | cons s ss ih =>
+    intro idx ⟨s0, hs0, hc⟩ hl
+    cases idx with
+    | nil => simp [allMem]
+    | cons i is =>
+      simp only [allMem]
+      rcases List.mem_cons.mp hs0 with rfl | hmem
+      · have : s0.mem i = false := by simp [Sel.mem, hc]
+        simp [this]
+      · rw [ih is ⟨s0, hmem, hc⟩ (by simpa using hl)]; simp
+
+/-- **`t[key] = c`, the whole routine**: given what key processing produced (`processKey`, `normKey` — characterised in C03 —
+    and `normAKey`), the routine succeeds and every selected entry becomes `c` while every other entry keeps its value, whatever
+    the format of `t` (Tucker factors are absorbed first, an empty selection leaves `t` untouched) -/
+theorem setitem_scalar (t : Tensor R) (ht : t.WF) (key key1 : List RawItem) (items : List Item) (sels : List Sel) (c : R)
+    (h1 : processKey t.length key = .ok key1) (h2 : normKey key1 t.shape = .ok items) (h3 : normAKey items = .ok sels)
+    (hl : sels.length = t.length) :
+    ∃ r, t.setitem key (.scalar c) = .ok r ∧
+      ∀ idx, idx.length = t.length → r.dense idx = if allMem sels idx then c else t.dense idx := by
+  by_cases hz : (sels.map (·.count)).any (· == 0) = true
+  · refine ⟨t, ?_, ?_⟩
+    · simp [Tensor.setitem, h1, h2, h3, bind, Except.bind, hz, pure, Except.pure]
+    · intro idx hi
+      have : ∃ s ∈ sels, s.count = 0 := by
+        simp only [List.any_map, List.any_eq_true, Function.comp, beq_iff_eq] at hz
+        exact hz
+      rw [allMem_of_zero_count sels idx this (by rw [hl, hi])]; simp
+  · have hz' : (sels.map (·.count)).any (· == 0) = false := by simpa using hz
+    by_cases hf : t.any (fun m => m.U.isSome) = true
+    · refine ⟨(t.decompAll.sub (restrictT sels t.decompAll)).add (scalarT c true sels t.decompAll), ?_, ?_⟩
+      · simp [Tensor.setitem, h1, h2, h3, bind, Except.bind, hz', hf, pure, Except.pure]
+      · intro idx hi
+        have hlen : t.decompAll.length = t.length := by simp [Tensor.decompAll]
+        rw [assign_scalar t.decompAll sels c (WF_decompAll t ht) (decomp_noFac t) (by rw [hl, hlen]) idx (by rw [hi, hlen]),
+          C01.decompress_dense]
+    · have hf' : t.any (fun m => m.U.isSome) = false := by simpa using hf
+      have hn : noFac t := by
+        intro m hm
+        have := List.any_eq_false.mp hf' m hm
+        cases hU : m.U with
+        | none => rfl
+        | some U => simp [hU] at this
+      refine ⟨(t.sub (restrictT sels t)).add (scalarT c true sels t), ?_, ?_⟩
+      · simp [Tensor.setitem, h1, h2, h3, bind, Except.bind, hz', hf', pure, Except.pure]
+      · intro idx hi
+        exact assign_scalar t sels c ht hn hl idx hi
+
+theorem shape_decompAll (t : Tensor R) : t.decompAll.shape = t.shape := by
+  induction t with
+  | nil => rfl
+  | cons m ms ih =>
+    simp only [Tensor.decompAll, Tensor.shape, List.map_cons] at ih ⊢
+    rw [ih]
+    congr 1
+    obtain ⟨c, U⟩ := m
+    cases U with
+    | none => cases c <;> rfl
+    | some U => cases c <;> rfl
+
+theorem selShape_noInt : ∀ (sels : List Sel), sels.any (·.isInt) = false → selShape sels = sels.map (·.count) := by
+  intro sels
+  induction sels with
+  | nil => intro _; rfl
+  | cons s ss ih =>
+    intro h
+    simp only [List.any_cons, Bool.or_eq_false_iff] at h
+    simp only [selShape, h.1, List.map_cons, ih h.2]
+    simp
+
+/-- **`t[key] = v` for a compressed value `v`** (key without integers: the value has one mode per mode of `t`): the selected entries take
+    `v`'s entries at their position inside the region, all other entries keep their values, whatever the formats of `t` and `v` -/
+theorem setitem_tensor (t v : Tensor R) (ht : t.WF) (hv : v.WF) (key key1 : List RawItem) (items : List Item) (sels : List Sel)
+    (h1 : processKey t.length key = .ok key1) (h2 : normKey key1 t.shape = .ok items) (h3 : normAKey items = .ok sels)
+    (hl : sels.length = t.length) (hni : sels.any (·.isInt) = false) (hvs : v.shape = selShape sels)
+    (hnz : (sels.map (·.count)).any (· == 0) = false) :
+    ∃ r, t.setitem key (.tensor v) = .ok r ∧
+      ∀ idx, idx.length = t.length → r.dense idx = if allMem sels idx then v.dense (posIdx sels idx) else t.dense idx := by
+  have hvl : v.length = t.length := by
+    have := congrArg List.length hvs
+    rw [selShape_noInt sels hni] at this
+    simpa [Tensor.shape, hl] using this
+  have hvd : ∀ idx, v.decompAll.dense idx = v.dense idx := fun idx => C01.decompress_dense v idx
+  have hvdl : v.decompAll.length = t.length := by simp [Tensor.decompAll, hvl]
+  by_cases hf : t.any (fun m => m.U.isSome) = true
+  · refine ⟨(t.decompAll.sub (restrictT sels t.decompAll)).add (embedT sels t.shape v.decompAll), ?_, ?_⟩
+    · simp [Tensor.setitem, h1, h2, h3, bind, Except.bind, hnz, hf, hni, hvs, pure, Except.pure]
+    · intro idx hi
+      have hlen : t.decompAll.length = t.length := by simp [Tensor.decompAll]
+      have := assign_tensor t.decompAll v.decompAll sels (WF_decompAll t ht) (decomp_noFac t) (by rw [hl, hlen]) (WF_decompAll v hv)
+        (decomp_noFac v) (by rw [hvdl, hlen]) idx (by rw [hi, hlen])
+      rw [shape_decompAll] at this
+      rw [this, hvd, C01.decompress_dense]
+  · have hf' : t.any (fun m => m.U.isSome) = false := by simpa using hf
+    have hn : noFac t := by
+      intro m hm
+      have := List.any_eq_false.mp hf' m hm
+      cases hU : m.U with
+      | none => rfl
+      | some U => simp [hU] at this
+    refine ⟨(t.sub (restrictT sels t)).add (embedT sels t.shape v.decompAll), ?_, ?_⟩
+    · simp [Tensor.setitem, h1, h2, h3, bind, Except.bind, hnz, hf', hni, hvs, pure, Except.pure]
+    · intro idx hi
+      rw [assign_tensor t v.decompAll sels ht hn hl (WF_decompAll v hv) (decomp_noFac v) hvdl idx hi, hvd]
+
+theorem WFfrom_fullRankLoop : ∀ (rest : List Nat) (sPrev : Nat) (st : Resh R), (∀ s ∈ rest, 0 < s) →
+    Tensor.WFfrom (st.rows / sPrev) (fullRankLoop sPrev st rest) ∧ noFac (fullRankLoop sPrev st rest) ∧
+      (fullRankLoop sPrev st rest).length = rest.length + 1 := by
+  intro rest
+  induction rest with
+  | nil =>
+    intro sPrev st _
+    refine ⟨⟨rfl, trivial, trivial⟩, ?_, rfl⟩
+    intro m hm; simp [fullRankLoop] at hm; subst hm; rfl
+  | cons s rest ih =>
+    intro sPrev st hpos
+    have hs : 0 < s := hpos s (by simp)
+    have hrest : ∀ x ∈ rest, 0 < x := fun x hx => hpos x (by simp [hx])
+    simp only [fullRankLoop]
+    split
+    · obtain ⟨w, n, l⟩ := ih s (st.fold s) hrest
+      have e : (st.fold s).rows / s = st.rows := by simp [Resh.fold, Nat.mul_div_cancel _ hs]
+      rw [e] at w
+      refine ⟨⟨rfl, trivial, w⟩, ?_, by simp [l]⟩
+      intro m hm
+      rcases List.mem_cons.mp hm with rfl | h
+      · rfl
+      · exact n m h
+    · obtain ⟨w, n, l⟩ := ih s (st.eyeFold s) hrest
+      have e : (st.eyeFold s).rows / s = st.cols := by simp [Resh.eyeFold, Nat.mul_div_cancel _ hs]
+      rw [e] at w
+      refine ⟨⟨rfl, trivial, w⟩, ?_, by simp [l]⟩
+      intro m hm
+      rcases List.mem_cons.mp hm with rfl | h
+      · rfl
+      · exact n m h
+
+theorem fullRankTT_wf (shape : List Nat) (x : Nat → R) (hne : shape ≠ []) (hpos : ∀ s ∈ shape, 0 < s) :
+    (fullRankTT shape x).WF ∧ noFac (fullRankTT shape x) ∧ (fullRankTT shape x).length = shape.length := by
+  cases shape with
+  | nil => exact absurd rfl hne
+  | cons s rest =>
+    obtain ⟨w, n, l⟩ := WFfrom_fullRankLoop rest s (Resh.ofArray s rest.prod x) (fun y hy => hpos y (by simp [hy]))
+    simp only [fullRankTT]
+    refine ⟨?_, n, by simpa using l⟩
+    cases h : fullRankLoop s (Resh.ofArray s rest.prod x) rest with
+    | nil => rw [h] at l; simp at l
+    | cons m ms =>
+      rw [h] at w
+      simpa [Tensor.WF] using (show Tensor.WFfrom m.core.rl (m :: ms) from by rw [w.1]; exact w)
+
+/-- **`t[key] = x` for a dense array `x`** (row-major entries over the selected box, integer entries of the key count as size-1 modes,
+    non-empty selection): the selected entries take `x`'s entries at their position inside the region, the others keep their values -/
+theorem setitem_dense (t : Tensor R) (ht : t.WF) (key key1 : List RawItem) (items : List Item) (sels : List Sel) (x : Nat → R)
+    (h1 : processKey t.length key = .ok key1) (h2 : normKey key1 t.shape = .ok items) (h3 : normAKey items = .ok sels)
+    (hl : sels.length = t.length)
+    (hnz : (sels.map (·.count)).any (· == 0) = false) :
+    ∃ r, t.setitem key (.dense (selShape sels) x) = .ok r ∧
+      ∀ idx, idx.length = t.length →
+        (allMem sels idx = true → inShape (posIdx sels idx) (sels.map (·.count)) →
+          r.dense idx = x (flat (posIdx sels idx) (sels.map (·.count)))) ∧
+        (allMem sels idx = false → r.dense idx = t.dense idx) := by
+  have hne : t ≠ [] := by intro h; subst h; simp [Tensor.WF] at ht
+  have hfull_ne : sels.map (·.count) ≠ [] := by
+    intro h
+    have : sels.length = 0 := by simpa using congrArg List.length h
+    rw [hl] at this; exact hne (List.length_eq_zero_iff.mp this)
+  have hpos : ∀ s ∈ sels.map (·.count), 0 < s := by
+    intro s hs
+    have := List.any_eq_false.mp hnz s hs
+    simp at this; omega
+  obtain ⟨vw, vn, vlen⟩ := fullRankTT_wf (sels.map (·.count)) x hfull_ne hpos
+  have vl : (fullRankTT (sels.map (·.count)) x).length = t.length := by rw [vlen]; simp [hl]
+  by_cases hf : t.any (fun m => m.U.isSome) = true
+  · refine ⟨(t.decompAll.sub (restrictT sels t.decompAll)).add (embedT sels t.shape (fullRankTT (sels.map (·.count)) x)), ?_, ?_⟩
+    · simp [Tensor.setitem, h1, h2, h3, bind, Except.bind, hnz, hf, pure, Except.pure]
+    · intro idx hi
+      have hlen : t.decompAll.length = t.length := by simp [Tensor.decompAll]
+      have := assign_tensor t.decompAll _ sels (WF_decompAll t ht) (decomp_noFac t) (by rw [hl, hlen]) vw vn (by rw [vl, hlen])
+        idx (by rw [hi, hlen])
+      rw [shape_decompAll] at this
+      refine ⟨fun hm hin => ?_, fun hm => ?_⟩
+      · rw [this, hm, if_pos rfl, C01.roundtrip _ x hfull_ne _ hin]
+      · rw [this, hm]; simp [C01.decompress_dense]
+  · have hf' : t.any (fun m => m.U.isSome) = false := by simpa using hf
+    have hn : noFac t := by
+      intro m hm
+      have := List.any_eq_false.mp hf' m hm
+      cases hU : m.U with
+      | none => rfl
+      | some U => simp [hU] at this
+    refine ⟨(t.sub (restrictT sels t)).add (embedT sels t.shape (fullRankTT (sels.map (·.count)) x)), ?_, ?_⟩
+    · simp [Tensor.setitem, h1, h2, h3, bind, Except.bind, hnz, hf', pure, Except.pure]
+    · intro idx hi
+      have := assign_tensor t _ sels ht hn hl vw vn vl idx hi
+      refine ⟨fun hm hin => ?_, fun hm => ?_⟩
+      · rw [this, hm, if_pos rfl, C01.roundtrip _ x hfull_ne _ hin]
+      · rw [this, hm]; simp
+
+-- NOT YET PROVED (full statements):
+--  * compressed values under keys WITH integers (C03.getitem_tensor for the singleton modes inserted at the integer positions);
+--  * `sels.length = t.length` follows from `processKey`/`normKey`/`normAKey` succeeding (keys of an assignment contain no None);
+--    it is a hypothesis of `setitem_scalar` and is validated on every correspondence run.
 
 end TN.C11
